@@ -92,6 +92,59 @@ member of its static type, whatever the cases are -/
 theorem switch_without_else_nilable (arms : List Ty) : hasTy (.sc .nil) (switchTy arms none) = true := by
   simp [switchTy, hasTy]
 
+/-- **The compiled matcher decides the reference relation**: `cmatch` (mirror of the bytecode
+`compiler/bytecode_compiler.go pattern` emits: left-to-right tests with early exit, the jumps of
+`||` / `&&`, class and length tests of collections) answers true exactly when the reference matcher
+matches — for every pattern and value. -/
+theorem compiled_verdict (ρ : Env) (p : Pat) (v : V) : (cmatch ρ p v).1 = (matchP ρ p v).isSome :=
+  cmatch_verdict ρ p v
+
+/-- hence the compiled `switch` selects the same case as the reference -/
+theorem compiled_select_index (ρ : Env) (cs : List Pat) (v : V) :
+    (cselect ρ cs v).map (·.1) = (select ρ cs v).map (·.1) :=
+  cselectFrom_index ρ v cs 0
+
+/-- **Bindings of the compiled matcher** (patterns without `||` / `?`): after a successful match every
+variable holds exactly its reference binding — `p as x` (stored before the test), identifiers, map
+shorthands, the rest loop (initialised to `[]`, then overwritten) included; non-linear patterns too. -/
+theorem compiled_bindings_partial (ρ : Env) (p : Pat) (v : V) (b : Bindings) (ha : p.altFree = true)
+    (h : matchP ρ p v = some b) (x : String) :
+    Bindings.get (cmatch ρ p v).2 x = Bindings.get b x :=
+  cmatch_ext ρ p v b ha h x
+
+/-- non-vacuity: a nested alt-free pattern with a named rest and an `as` -/
+example : (Pat.as (.list [.bind "a"] (.named "r") [.rel .gt (.lit (.int 2))]) "w").altFree = true ∧
+    matchP [] (.as (.list [.bind "a"] (.named "r") [.rel .gt (.lit (.int 2))]) "w")
+      (.list [.sc (.int 1), .sc (.int 2), .sc (.int 3)]) =
+      some [("w", .list [.sc (.int 1), .sc (.int 2), .sc (.int 3)]), ("a", .sc (.int 1)), ("r", .list [.sc (.int 2)])] := by
+  constructor <;> rfl
+
+/-- full-strength statement about the stores of the compiled matcher: after a successful match every
+variable of the pattern holds its reference binding -/
+def CompiledBindingsCorrect : Prop :=
+  ∀ (ρ : Env) (p : Pat) (v : V) (b : Bindings), matchP ρ p v = some b →
+    ∀ x ∈ p.vars, ∃ w, b.get x = some w ∧ ((cmatch ρ p v).2.slot x = .val w)
+
+/-- it fails (known finding): in `(10 as x) || 11` against 11 the compiled code leaves `x = 11`
+(stored before the alternative failed), the reference — and the checker's nilable type — say nil -/
+theorem compiled_bindings_witness : ¬ CompiledBindingsCorrect := by
+  intro h
+  obtain ⟨w, hw, hs⟩ := h [] (.or (.as (.lit (.int 10)) "x") (.lit (.int 11))) (.sc (.int 11))
+    [("x", .sc .nil)] rfl "x" (by simp [Pat.vars])
+  have h1 : w = .sc .nil := by
+    have : Bindings.get [("x", V.sc .nil)] "x" = some (V.sc .nil) := rfl
+    rw [this] at hw; injection hw with hw; exact hw.symm
+  subst h1
+  have h2 : (cmatch [] (.or (.as (.lit (.int 10)) "x") (.lit (.int 11))) (.sc (.int 11))).2.slot "x"
+      = .val (.sc (.int 11)) := rfl
+  rw [h2] at hs
+  injection hs with hs; injection hs with hs; cases hs
+
+/-- and a variable of an alternative that was never tried is never stored: `(10 as x) || (11 as y)`
+against 10 leaves `y` stale (whatever the stack slot held) -/
+theorem compiled_stale_witness :
+    (cmatch [] (.or (.as (.lit (.int 10)) "x") (.as (.lit (.int 11)) "y")) (.sc (.int 10))).2.slot "y" = .stale := rfl
+
 /-! ### non-vacuity -/
 
 /-- a three-case switch: the second case is the first that matches, with bindings -/
